@@ -59,6 +59,7 @@ static void fieldop_run(Ctx& c) {
     for (int i = 0; i < N; ++i) {
         Pomerol::CreationOperator CX(*p.IC, *p.S, *p.H, (Pomerol::ParticleIndex)i); CX.prepare(); CX.compute();
         Pomerol::AnnihilationOperator C(*p.IC, *p.S, *p.H, (Pomerol::ParticleIndex)i); C.prepare(); C.compute();
+        if (c.k % 2 == 0) { C.prepare(); C.compute(); CX.prepare(); CX.compute(); }
         CMat refC = jw_c(N, i), refCX = refC.adjoint();
         for (int which = 0; which < 2; ++which) {
             bool ok1, ok2; CMat a = assemble(p, lb, C, which, ok1), b = assemble(p, lb, CX, which, ok2);
